@@ -33,7 +33,8 @@ ASSUMPTIONS = [
     'the Jacobian relation is decided on the states the simulation visits (amplitudes up to a few wall thicknesses), not for all states',
     'finite differences use Richardson extrapolation of central differences (exact for the cubic internal force) with a rounding bound of 256*eps*max|fint|/h',
     'thread interleaving inside integratev is not controlled; the partition is (thread count, remainder pass, OpenMP thread limit)',
-    'models whose kernels fail the Jacobian relation on the unchanged tree are known findings keyed by (J5, model); J1-J4, J6 stay enforced for them',
+    'models whose kernels fail the Jacobian relation on the unchanged tree are known findings keyed by (J5, model); J1-J4, J6, J7 stay enforced for them',
+    'J3/J4/J6 (zero state, small amplitudes, tangent at zero) are demanded for the perfect shell without prescribed torsion/asymmetry amplitudes only',
 ]
 
 NL_MODELS = ['clpt_donnell_bc1', 'clpt_donnell_bc2', 'iso_clpt_donnell_bc2', 'clpt_donnell_bc3', 'iso_clpt_donnell_bc3',
@@ -72,7 +73,13 @@ def generate(seed, batch):
     scen['threads'] = [rng.choice(pool) for _ in range(rng.randint(2, 4))]
     scen['first'] = rng.choice(['fext', 'k0'])
     scen['order'] = rng.sample(['kT', 'fint', 'k0', 'kT', 'fint'], 5)
-    scen['inc'] = 1.0
+    # load level and prescribed (known) amplitudes: torsion angle and load-asymmetry angle, scaled by inc
+    scen['inc'] = rng.choice([1.0, 1.0, rng.uniform(0.05, 1.0)])
+    scen['shell']['thetaTdeg'] = rng.choice([0.0, 0.0, rng.uniform(-2.0, 2.0)])
+    scen['shell']['betadeg'] = rng.choice([0.0, 0.0, 0.0, rng.uniform(0.05, 1.0)])
+    # re-definition between two evaluations at the same state (caches must follow the definition)
+    scen['redefine'] = rng.choice([None, None, 'imperfection', 'imperfection_off', 'grid', 'method', 'inc'])
+    scen['redef_seed'] = rng.getrandbits(32)
     return scen
 
 
@@ -93,6 +100,19 @@ def shrink_candidates(scen):
         c = copy.deepcopy(scen)
         c['imperfection'] = None
         yield c
+    if scen.get('redefine'):
+        c = copy.deepcopy(scen)
+        c['redefine'] = None
+        yield c
+    if scen.get('inc', 1.0) != 1.0:
+        c = copy.deepcopy(scen)
+        c['inc'] = 1.0
+        yield c
+    for key in ('thetaTdeg', 'betadeg'):
+        if scen['shell'].get(key):
+            c = copy.deepcopy(scen)
+            c['shell'][key] = 0.0
+            yield c
     sh = scen['shell']
     for key in ('m1', 'm2', 'n2'):
         if sh[key] > 1:
@@ -141,6 +161,8 @@ def build_shell(scen):
     cc.kphixBot = cc.kphixTop = sh['kphix']
     cc.with_k0L = sh['with_k0L']
     cc.with_kLL = sh['with_kLL']
+    cc.thetaTdeg = sh.get('thetaTdeg', 0.0)
+    cc.betadeg = sh.get('betadeg', 0.0)
     cc.forces.append([cc.H / 2., 0., 0., 0., -10.])
     imp = scen['imperfection']
     if imp:
@@ -237,8 +259,13 @@ def execute(scen):
         asym = np.abs(kT - kT.T).max()
         if not (asym <= 1e-12 * np.abs(kT).max()):
             raise Violation('J2-symmetry', dict(ctx, asym=float(asym), scale=float(np.abs(kT).max())))
-        perfect = scen['imperfection'] is None
+        prescribed = bool(sh.get('thetaTdeg') or sh.get('betadeg'))
+        perfect = scen['imperfection'] is None and not prescribed
         zero = np.zeros(nu)
+        if prescribed:
+            bump(res['probes'], 'prescribed_amplitudes_nonzero')
+        if scen['inc'] != 1.0:
+            bump(res['probes'], 'load_level_below_1')
         if perfect:
             # ---- J3 fint(0) = 0, J6 kT(0) = k0
             f0 = fint_of(zero)
@@ -287,6 +314,55 @@ def execute(scen):
             v.known_id = 'C17-J5-' + model
             raise v
         bump(res['probes'], 'J5_checked')
+        # ---- J7: re-definition between evaluations at the same state: the long-lived object must agree with a
+        #      freshly built shell of the new definition (no stale cached matrices)
+        rd = scen.get('redefine')
+        if rd:
+            import copy as _copy
+            scen2 = _copy.deepcopy(scen)
+            rrng = np.random.Generator(np.random.PCG64([scen['redef_seed'], 11]))
+            if rd == 'imperfection':
+                m0, n0 = int(rrng.integers(1, 4)), int(rrng.integers(1, 4))
+                scen2['imperfection'] = {'m0': m0, 'n0': n0, 'amp': float(10 ** rrng.uniform(-2, -0.3)), 'seed': int(rrng.integers(0, 2 ** 31))}
+                imp = scen2['imperfection']
+                irng = np.random.Generator(np.random.PCG64([imp['seed'], 5]))
+                cc.m0, cc.n0, cc.funcnum = imp['m0'], imp['n0'], 2
+                cc.c0 = np.ascontiguousarray(irng.standard_normal(2 * imp['m0'] * imp['n0']) * imp['amp'])
+            elif rd == 'imperfection_off':
+                scen2['imperfection'] = None
+                cc.c0 = None
+                cc.m0 = cc.n0 = 0      # a shell without imperfection has m0 = n0 = 0 (the kernels index c0 otherwise)
+            elif rd == 'grid':
+                scen2['shell']['nx'] = sh['nx'] + 2
+                scen2['shell']['nt'] = sh['nt'] + 4
+                cc.nx, cc.nt = scen2['shell']['nx'], scen2['shell']['nt']
+            elif rd == 'method':
+                newm = 'simps2d' if sh['method'] == 'trapz2d' else 'trapz2d'
+                scen2['shell']['method'] = newm
+                if newm == 'simps2d':
+                    scen2['shell']['nx'] |= 1
+                    scen2['shell']['nt'] |= 1
+                cc.ni_method = newm
+                cc.nx, cc.nt = scen2['shell']['nx'], scen2['shell']['nt']
+            elif rd == 'inc':
+                scen2['inc'] = 0.5 if scen['inc'] != 0.5 else 0.25
+            inc2 = scen2['inc']
+            fresh = build_shell(scen2)
+            fresh.ni_num_cores = cc.ni_num_cores
+            fresh.calc_fext(silent=True)
+            kT_old = cc.calc_kT(c, inc=inc2, silent=True).toarray()
+            f_old = np.array(cc.calc_fint(c, inc=inc2, silent=True), dtype=float)
+            kT_new = fresh.calc_kT(c, inc=inc2, silent=True).toarray()
+            f_new = np.array(fresh.calc_fint(c, inc=inc2, silent=True), dtype=float)
+            for nm, a, b in (('kT', kT_old, kT_new), ('fint', f_old, f_new)):
+                sc = np.abs(b).max()
+                df = np.abs(a - b).max()
+                if not (df <= 1e-10 * sc):
+                    raise Violation('J7-redefinition', dict(ctx, redefine=rd, quantity=nm, maxdiff=float(df), scale=float(sc),
+                                                            why='after re-defining the %s the long-lived object differs from a '
+                                                                'freshly built shell with the same definition' % rd))
+            bump(res['probes'], 'J7_checked_' + rd)
+            res['steps'] += 4
         if scale <= 10 * noise:
             bump(res['probes'], 'J5_nonlinear_part_below_noise')
         bump(res['probes'], 'model_' + model)
